@@ -2,6 +2,7 @@ import Hgxv.Proofs.C13
 import Hgxv.Proofs.C13Relabel
 import Hgxv.Proofs.C13Ext
 import Hgxv.Proofs.C13Layer
+import Hgxv.Proofs.C13Obj
 /-! # C13 — configuration models preserve every node's degree and every hyperedge size
 
 Theorems about the model `Hgxv/Model/C13.lean` of `generation/configuration_model.py`
@@ -540,3 +541,165 @@ theorem C13_singleton_layer (label : Label) (detailed : Bool) (order size : Opti
 
 example : cmCall .stub true (some 2) none 2 [[0, 1], [0, 1, 2], [3, 4]] [.idx 0 0, .idx 0 0]
     = .ok [[0, 1, 2], [0, 1], [3, 4]] := rfl
+
+/-! ## second extension round: integer arguments, unknown labels, what the returned object carries
+
+`Model/C13Obj.lean`: `cmCallI` = `configuration_model(h, n_steps, label, order, size, ...)` with `order`, `size`,
+`n_steps` INTEGERS of either sign and `label` either `'edge'` / `'stub'` (`LabelX.known`) or a label that
+`_cm_MCMC` does not know (`LabelX.other`, `'vertex'` excluded); the answer is the listing of the returned object or
+`none` (Python's `None`), together with the draws that were not consumed.  `cmObj` = the same call on an object with
+weights and metadata.  Nothing below assumes anything about the draws. -/
+
+/-- the integer entry point refines the models above.  `order` AND `size` are refused for every label, sign and
+draw list; natural arguments resolve as in `resolveSize`; for a known label every answer is, for some natural size
+`szN` (the requested one when it is non-negative, `none` exactly when neither argument was given), the answer of
+`configurationModel … szN (max n_steps 0)` — so every theorem above holds for integer arguments of either sign -/
+theorem C13_int_entry (detailed : Bool) (n : Int) (es : List Edge) (ds : List Draw) :
+    (∀ lab o s, cmCallI lab detailed (some o) (some s) n es ds = .error .raise) ∧
+    (∀ order size : Option Nat, resolveSizeI (order.map Int.ofNat) (size.map Int.ofNat)
+        = (resolveSize order size).map (Option.map Int.ofNat)) ∧
+    (∀ l order size sz, resolveSizeI order size = .ok sz →
+      ∃ szN : Option Nat, (sz = none ↔ szN = none) ∧ (∀ s : Int, sz = some s → 0 ≤ s → szN = some s.toNat) ∧
+        (cmCallI (.known l) detailed order size n es ds).map (·.1)
+          = (configurationModel l detailed szN n.toNat es ds).map some) := by
+  refine ⟨fun _ _ _ => rfl, resolveSizeI_cast, fun l order size sz hres => ?_⟩
+  rcases cmCallI_known l detailed order size n es ds with ⟨o, s, rfl, rfl, _⟩ | ⟨szN, hsz, heq⟩
+  · cases hres
+  · exact ⟨szN, (hsz sz hres).1, (hsz sz hres).2, heq⟩
+
+-- `order=-1` is the layer of size 0; `order=-3` is an empty layer; a negative `n_steps` is no step
+example : cmCallI (.known .edge) true (some (-1)) none 1 [[], [0, 1]] [.idx 0 0] = .ok (some [[], [0, 1]], []) := rfl
+example : cmCallI (.known .stub) true (some (-3)) none (-2) [[0, 1], [2]] [.idx 0 0] = .ok (some [[0, 1], [2]], [.idx 0 0]) := rfl
+example : cmCallI (.known .edge) true none (some 1) 1 [[0], [1], [0, 1]] [.idx 0 1, .coin false]
+    = .ok (some [[1], [0], [0, 1]], []) := rfl
+
+/-- a NEGATIVE requested size (`size=s` with `s < 0`, `order=o` with `o < -1`): with `n_steps ≤ 0` the call returns
+exactly the input listing and consumes no draw, with `n_steps > 0` it raises (`np.random.randint(0, 0, 2)`) —
+for every input and draw list (`hdist`: `get_edges()` lists the keys of a dict) -/
+theorem C13_negative_size (l : Label) (detailed : Bool) (order size : Option Int) (n : Int) (es : List Edge)
+    (ds : List Draw) (s : Int) (hres : resolveSizeI order size = .ok (some s)) (hs : s < 0) (hdist : es.Nodup) :
+    cmCallI (.known l) detailed order size n es ds = if n ≤ 0 then .ok (some es, ds) else .error .raise :=
+  cmCallI_negative l detailed order size n es ds s hres hs hdist
+
+example : cmCallI (.known .edge) false none (some (-1)) 0 [[0, 1], [2]] [.coin true] = .ok (some [[0, 1], [2]], [.coin true]) := rfl
+example : cmCallI (.known .edge) false (some (-2)) none 3 [[0, 1], [2]] [.idx 0 0] = .error .raise := rfl
+
+/-- the property for the integer entry point (known label, integers of either sign, every draw list): the returned
+listing is duplicate-free, no node has a higher degree (at any size when `detailed`), a node has a hyperedge iff it
+had one; when the number of hyperedges is preserved degrees (per size when `detailed`) and the multiset of sizes
+are unchanged; with a size / order argument the hyperedges outside the requested layer are returned intact -/
+theorem C13_int_invariants (l : Label) (detailed : Bool) (order size : Option Int) (n : Int) (es : List Edge)
+    (ds : List Draw) (out : List Edge) (ds' : List Draw)
+    (h : cmCallI (.known l) detailed order size n es ds = .ok (some out, ds'))
+    (hdist : es.Nodup) (hnd : ∀ e ∈ es, e.Nodup) :
+    out.Nodup ∧ out.length ≤ es.length ∧
+      (∀ x, deg out x ≤ deg es x) ∧ (detailed = true → ∀ x k, degK out x k ≤ degK es x k) ∧
+      (∀ x, 0 < deg out x ↔ 0 < deg es x) ∧
+      (out.length = es.length →
+        (∀ x, deg out x = deg es x) ∧ (sizes out).Perm (sizes es) ∧
+        (detailed = true → ∀ x k, degK out x k = degK es x k)) ∧
+      (∀ s, resolveSizeI order size = .ok (some s) →
+        out.filter (fun e => !inLayer s e) = es.filter (fun e => !inLayer s e)) := by
+  have hok : ∀ szN : Option Nat,
+      (cmCallI (.known l) detailed order size n es ds).map (·.1)
+        = (configurationModel l detailed szN n.toNat es ds).map some →
+      configurationModel l detailed szN n.toNat es ds = .ok out := by
+    intro szN heq
+    rw [h] at heq
+    cases hc : configurationModel l detailed szN n.toNat es ds with
+    | error e => rw [hc] at heq; cases heq
+    | ok o =>
+      rw [hc] at heq
+      simp only [Except.map, Except.ok.injEq, Option.some.injEq] at heq
+      rw [heq]
+  rcases cmCallI_known l detailed order size n es ds with ⟨o, s, rfl, rfl, hr⟩ | ⟨szN, hsz, heq⟩
+  · rw [hr] at h; cases h
+  have hcm := hok szN heq
+  have K := C13_nodes_and_sizes l detailed szN n.toNat es ds out hcm (fun _ => hdist) hnd
+  have hint : ∀ s, resolveSizeI order size = .ok (some s) →
+      out.filter (fun e => !inLayer s e) = es.filter (fun e => !inLayer s e) := by
+    intro s hres
+    by_cases hs : 0 ≤ s
+    · obtain ⟨k, rfl⟩ : ∃ k : Nat, s = k := ⟨s.toNat, by omega⟩
+      have hk := hok (some k) (cmCallI_known_of_filters l detailed order size n es ds k k hres
+        (fun e _ => inLayer_cast k e))
+      have R := (C13_restricted l detailed k n.toNat es ds out hk hdist hnd).1
+      have hf : (fun e : Edge => !inLayer (k : Int) e) = (fun e : Edge => e.length != k) := by
+        funext e; rw [inLayer_cast]; rfl
+      rw [hf]; exact R
+    · rw [cmCallI_negative l detailed order size n es ds s hres (by omega) hdist] at h
+      split at h
+      · simp only [Except.ok.injEq, Prod.mk.injEq, Option.some.injEq] at h
+        rw [h.1]
+      · cases h
+  cases szN with
+  | none =>
+    have A := C13_not_detailed l detailed n.toNat es ds out hcm hnd
+    refine ⟨A.1, A.2.2.1, A.2.2.2.1, ?_, K.2.1, fun hl => ⟨(A.2.2.2.2 hl).1, (A.2.2.2.2 hl).2, ?_⟩, hint⟩
+    · intro hd; subst hd
+      exact (C13_detailed l n.toNat es ds out hcm hnd).2.2.2.1
+    · intro hd; subst hd
+      exact ((C13_detailed l n.toNat es ds out hcm hnd).2.2.2.2 hl).1
+  | some k =>
+    have R := C13_restricted l detailed k n.toNat es ds out hcm hdist hnd
+    exact ⟨R.2.1, R.2.2.1, R.2.2.2.1, R.2.2.2.2.1, K.2.1, R.2.2.2.2.2, hint⟩
+
+example : cmCallI (.known .stub) false (some 1) none 1 [[0, 1], [1, 2, 3], [2, 4]]
+    [.idx 0 1, .coin true, .coin false, .coin false] = .ok (some [[0, 4], [1, 2], [1, 2, 3]], []) := rfl
+
+/-- a label that `_cm_MCMC` does not know (anything but `'edge'`, `'stub'`, `'vertex'`): for every input, every
+integer argument and every draw list NO draw is consumed; the plain call returns `None`; the `size=` / `order=`
+variant returns `None` when every hyperedge lies in the requested layer and raises otherwise (`None.add_edge`);
+`order` and `size` together are refused as for every label.  In particular no hypergraph is ever returned. -/
+theorem C13_unknown_label (detailed : Bool) (order size : Option Int) (n : Int) (es : List Edge) (ds : List Draw) :
+    (cmCallI .other detailed order size n es ds =
+      match resolveSizeI order size with
+      | .error e => .error e
+      | .ok none => .ok (none, ds)
+      | .ok (some s) => if es.all (inLayer s) then .ok (none, ds) else .error .raise) ∧
+    (∀ r ds', cmCallI .other detailed order size n es ds = .ok (r, ds') → r = none ∧ ds' = ds) := by
+  have h := cmCallI_other detailed order size n es ds
+  refine ⟨h, fun r ds' hr => ?_⟩
+  rw [h] at hr
+  split at hr
+  · cases hr
+  · simp only [Except.ok.injEq, Prod.mk.injEq] at hr; exact ⟨hr.1.symm, hr.2.symm⟩
+  · split at hr
+    · simp only [Except.ok.injEq, Prod.mk.injEq] at hr; exact ⟨hr.1.symm, hr.2.symm⟩
+    · cases hr
+
+example : cmCallI .other true none none 5 [[0, 1], [2]] [.idx 0 1] = .ok (none, [.idx 0 1]) := rfl
+example : cmCallI .other true none (some 2) 5 [[0, 1], [2, 3]] [.idx 0 1] = .ok (none, [.idx 0 1]) := rfl
+example : cmCallI .other true (some 1) none 5 [[0, 1], [2]] [.idx 0 1] = .error .raise := rfl
+
+/-- what the returned OBJECT carries (any label, any integer arguments, every draw list): whenever the call
+returns a hypergraph it is `bare out` for the listing `out` the entry point answers — unweighted, default hypergraph
+metadata, every hyperedge with weight 1 and empty metadata, its nodes exactly `nodesOf out` with empty metadata —
+and the whole answer depends on the input object only through `get_edges()`: weights, metadata of hyperedges /
+nodes / hypergraph and isolated nodes of the input have no influence -/
+theorem C13_result_bare (label : LabelX) (detailed : Bool) (order size : Option Int) (n : Int) (hin : Obj)
+    (ds : List Draw) :
+    (∀ r ds', cmObj label detailed order size n hin ds = .ok (r, ds') →
+      ∃ r0, cmCallI label detailed order size n hin.listing ds = .ok (r0, ds') ∧ r = r0.map bare ∧
+        ∀ o, r = some o → ∃ out, r0 = some out ∧ o.listing = out ∧ o.weighted = false ∧ o.hmeta = 0 ∧
+          (∀ x ∈ o.items, x.2.1 = 1 ∧ x.2.2 = 0) ∧ o.nodeMeta.map (·.1) = nodesOf out ∧
+          (∀ x ∈ o.nodeMeta, x.2 = 0)) ∧
+    (∀ hin' : Obj, hin'.listing = hin.listing →
+      cmObj label detailed order size n hin' ds = cmObj label detailed order size n hin ds) := by
+  refine ⟨fun r ds' hr => ?_, fun hin' hl => cmObj_listing_only label detailed order size n hin' hin ds hl⟩
+  obtain ⟨r0, h0, rfl⟩ := cmObj_ok label detailed order size n hin ds r ds' hr
+  refine ⟨r0, h0, rfl, fun o ho => ?_⟩
+  cases r0 with
+  | none => cases ho
+  | some out =>
+    simp only [Option.map_some, Option.some.injEq] at ho
+    subst ho
+    have B := bare_carries_nothing out
+    exact ⟨out, rfl, bare_listing out, B.1, B.2.1, B.2.2.1, bare_nodes out, B.2.2.2⟩
+
+-- a weighted input with metadata and an isolated node 9: the result is bare
+example : cmObj (.known .edge) true none none 1
+    { weighted := true, items := [([0, 1], 5, 3), ([2, 3], 7, 0)], nodeMeta := [(0, 1), (1, 0), (2, 0), (3, 2), (9, 4)], hmeta := 6 }
+    [.idx 0 1, .coin true, .coin false, .coin false]
+    = .ok (some { weighted := false, items := [([0, 3], 1, 0), ([1, 2], 1, 0)],
+                  nodeMeta := [(0, 0), (1, 0), (2, 0), (3, 0)], hmeta := 0 }, []) := rfl
